@@ -376,3 +376,30 @@ pub proof fn lemma_den_term_eval(nodes: Seq<BddNode>, t: int, a: Asg)
     requires 0 <= t <= 1,
     ensures den(nodes, t)(a) == (t == 1)
 { }
+// ---------------- #sat (C13, "exact ratio"): definitions; the lemmas are in sat_spec.rs, outside this module, over the public laws only
+// number of assignments to the variables listed in vs (all other variables false) that satisfy f
+pub open spec fn cnt_sat(f: BF, vs: Seq<usize>) -> nat
+    decreases vs.len()
+{
+    if vs.len() == 0 { if f(|x: usize| false) { 1 } else { 0 } }
+    else { cnt_sat(bf_restrict(f, vs.last(), false), vs.drop_last()) + cnt_sat(bf_restrict(f, vs.last(), true), vs.drop_last()) }
+}
+// ---------------- #sat: the model counters are assignment counts scaled by the depth (C13, "exact ratio")
+pub open spec fn distinct(vs: Seq<usize>) -> bool { forall|i: int, j: int| 0 <= i < j < vs.len() ==> vs[i] != vs[j] }
+pub proof fn law_indep_restrict_other(f: BF, v: usize, w: usize, x: bool)
+    requires bf_indep(f, v), w != v,
+    ensures bf_indep(bf_restrict(f, w, x), v)
+{
+    assert forall|a: Asg, b: bool| #[trigger] bf_restrict(f, w, x)(upd(a, v, b)) == bf_restrict(f, w, x)(a) by {
+        assert(upd(upd(a, v, b), w, x) =~= upd(upd(a, w, x), v, b));
+        assert(f(upd(upd(a, w, x), v, b)) == f(upd(a, w, x)));
+    }
+}
+// Shannon node over a listed variable whose children ignore it: exactly half of each child's assignments
+pub proof fn law_const_eval(b: bool, a: Asg) ensures bf_const(b)(a) == b { }
+// negation (named bf_not_ here because bf_not is declared further down in this module, next to the connectives)
+pub open spec fn bf_not_(f: BF) -> BF { bf_ite(f, bf_const(false), bf_const(true)) }
+pub proof fn law_not_const(b: bool) ensures bf_not_(bf_const(b)) == bf_const(!b) { assert(bf_not_(bf_const(b)) =~= bf_const(!b)); }
+pub proof fn law_not_node(v: usize, h: BF, l: BF) ensures bf_not_(bf_node(v, h, l)) == bf_node(v, bf_not_(h), bf_not_(l)) { assert(bf_not_(bf_node(v, h, l)) =~= bf_node(v, bf_not_(h), bf_not_(l))); }
+pub proof fn law_indep_not(f: BF, v: usize) requires bf_indep(f, v), ensures bf_indep(bf_not_(f), v)
+{ assert forall|a: Asg, b: bool| #[trigger] bf_not_(f)(upd(a, v, b)) == bf_not_(f)(a) by { assert(f(upd(a, v, b)) == f(a)); } }
